@@ -196,6 +196,7 @@ pub fn iterstates(a: &Args, rep: &mut Report) {
                 ElemKind::U64 => iter_case::<u64, u64>(&cfg, state, size, op),
                 ElemKind::TrInline => iter_case::<Tr<false>, Tr<false>>(&cfg, state, size, op),
                 ElemKind::TrHeap => iter_case::<Tr<true>, Tr<true>>(&cfg, state, size, op),
+                ElemKind::Big => iter_case::<u64, Big>(&cfg, state, size, op),
             };
             if let Some(out) = out {
                 let tag = format!("iterstates-{}-s{}-i{}-h{}-{}", flavour(), sh.seed, sh.index, h, j);
@@ -537,6 +538,7 @@ pub fn clones(a: &Args, rep: &mut Report) {
             ElemKind::U64 => clones_case::<u64, u64>(&cfg, &mut hr, rep, &tag),
             ElemKind::TrInline => clones_case::<Tr<false>, Tr<false>>(&cfg, &mut hr, rep, &tag),
             ElemKind::TrHeap => clones_case::<Tr<true>, Tr<true>>(&cfg, &mut hr, rep, &tag),
+            ElemKind::Big => clones_case::<u64, Big>(&cfg, &mut hr, rep, &tag),
         }
     }
 }
